@@ -247,6 +247,32 @@ func TypeSum(t1, t2 Type) Type {
 	if t1.TypeID == TypeIDStruct && t2.TypeID == TypeIDStruct {
 		// Deep merge structs.
 
+		// Fields are matched by position everywhere else (Is, values), so structs with the same field names
+		// in the same order are merged field by field, keeping that order (also when names repeat or are empty).
+		sameFieldNames := len(t1.Struct.Fields) == len(t2.Struct.Fields)
+		for i := 0; sameFieldNames && i < len(t1.Struct.Fields); i++ {
+			if t1.Struct.Fields[i].Name != t2.Struct.Fields[i].Name {
+				sameFieldNames = false
+			}
+		}
+		if sameFieldNames {
+			outFieldSlice := make([]StructField, len(t1.Struct.Fields))
+			for i := range t1.Struct.Fields {
+				outFieldSlice[i] = StructField{
+					Name: t1.Struct.Fields[i].Name,
+					Type: TypeSum(t1.Struct.Fields[i].Type, t2.Struct.Fields[i].Type),
+				}
+			}
+			return Type{
+				TypeID: TypeIDStruct,
+				Struct: struct {
+					Fields []StructField
+				}{
+					Fields: outFieldSlice,
+				},
+			}
+		}
+
 		t1Fields := make(map[string]Type)
 		for i := range t1.Struct.Fields {
 			t1Fields[t1.Struct.Fields[i].Name] = t1.Struct.Fields[i].Type
